@@ -18,6 +18,7 @@ import (
 	"math/rand/v2"
 	"net"
 	"net/netip"
+	"os"
 	"runtime"
 	"strings"
 	"sync"
@@ -48,6 +49,11 @@ type vfChunkConn struct {
 	eofCh     chan struct{}
 	blockEOF  bool
 	remote    net.Addr
+	// stalls: stream offsets at which the data "arrives late".  A reader that has a read deadline armed when it gets
+	// there sees one timeout error, as it would on a real socket; a reader without a deadline just waits and notices nothing.
+	stalls     map[int]bool
+	rdl        time.Time
+	stallFired int
 }
 
 func (c *vfChunkConn) Read(p []byte) (int, error) {
@@ -77,6 +83,15 @@ func (c *vfChunkConn) Read(p []byte) (int, error) {
 		c.mu.Unlock()
 
 		return 0, nil
+	}
+	if c.stalls[c.pos] {
+		delete(c.stalls, c.pos)
+		if !c.rdl.IsZero() {
+			c.stallFired++
+			c.mu.Unlock()
+
+			return 0, os.ErrDeadlineExceeded
+		}
 	}
 	// over-read monitor: a request must not extend past the end of the current header/body segment
 	if c.segEnds != nil && c.overRead == "" {
@@ -146,9 +161,28 @@ func (c *vfChunkConn) RemoteAddr() net.Addr {
 
 	return &net.TCPAddr{IP: net.IPv4(10, 0, 0, 2), Port: 7001}
 }
-func (c *vfChunkConn) SetDeadline(time.Time) error      { return nil }
-func (c *vfChunkConn) SetReadDeadline(time.Time) error  { return nil }
+func (c *vfChunkConn) SetDeadline(t time.Time) error { return c.SetReadDeadline(t) }
+func (c *vfChunkConn) SetReadDeadline(t time.Time) error {
+	c.mu.Lock()
+	c.rdl = t
+	c.mu.Unlock()
+
+	return nil
+}
 func (c *vfChunkConn) SetWriteDeadline(time.Time) error { return nil }
+
+// vfC14Stalls picks up to three stream offsets in [from, total) for late arrivals (a third of the cases).
+func vfC14Stalls(rng *rand.Rand, from, total int) map[int]bool {
+	if rng.IntN(3) != 0 || total <= from {
+		return nil
+	}
+	out := map[int]bool{}
+	for n := 1 + rng.IntN(3); n > 0; n-- {
+		out[from+rng.IntN(total-from)] = true
+	}
+
+	return out
+}
 
 func vfC14Len(rng *rand.Rand, maxLen int) int {
 	switch rng.IntN(10) {
@@ -479,6 +513,7 @@ func TestVerifC14(t *testing.T) { //nolint:cyclop,maintidx
 			stream, segEnds := vfC14Frame(pkts)
 			chunks, kind := vfC14Partition(rng, len(stream))
 			cc := &vfChunkConn{stream: stream, chunks: chunks, segEnds: segEnds, remote: &net.TCPAddr{IP: net.IPv4(10, 9, byte(rng.IntN(250)), 3), Port: 1000 + rng.IntN(60000)}}
+			cc.stalls = vfC14Stalls(rng, 0, len(stream))
 			tp := newTCPPacketConn(tcpPacketParams{ReadBuffer: rng.IntN(8), LocalAddr: &net.TCPAddr{IP: net.IPv4(10, 0, 0, 1), Port: 7000}, Logger: vfQuietLogger().NewLogger("ice")})
 			if err := tp.AddConn(cc, nil); err != nil {
 				r.violation("harness:addconn", err.Error(), nil)
@@ -1117,6 +1152,7 @@ func vfC14MuxFirstFrame(e *vfEnv, r *vfResult, idx int) { //nolint:cyclop
 		chunks, kind = []int{k}, "first-frame-coalesced"
 	}
 	cc := &vfChunkConn{stream: stream, chunks: chunks, segEnds: segEnds, remote: &net.TCPAddr{IP: net.IPv4(10, 9, byte(rng.IntN(250)), 3), Port: 1000 + rng.IntN(60000)}}
+	cc.stalls = vfC14Stalls(rng, 2+len(first), len(stream)) // late arrivals behind the first frame (which has its own, legitimate, deadline)
 	ln := &vfIdleListener{ch: make(chan struct{})}
 	mux := NewTCPMuxDefault(TCPMuxParams{Listener: ln, Logger: vfQuietLogger().NewLogger("ice"), ReadBufferSize: rng.IntN(8)})
 	defer func() {
